@@ -73,7 +73,12 @@ class World:
         return {k: o._state for k, o in self.objs().items()}
 
     def canon(self):
-        return tuple(sorted(self.views().items())) + (tuple(sorted(self.skip)),)
+        # every scalar attribute of the five NMT objects except the heartbeat time stamp: hidden state such as
+        # _state_received must not be merged away (a wrong abstraction hides bugs silently)
+        hidden = tuple((k, tuple(sorted((a, v) for a, v in o.__dict__.items()
+                                        if a not in ("timestamp", "id") and isinstance(v, (int, str, bool, type(None))))))
+                       for k, o in sorted(self.objs().items()))
+        return hidden + (tuple(sorted(self.skip)),)
 
 
 def apply(w, ev):
